@@ -55,7 +55,8 @@ def _validate(vtype, val, name):
         itype = vtype.__args__[0]
         if itype != func_xltypes.XlArray:
             val = flatten(val)
-        if itype in (func_xltypes.XlNumber, func_xltypes.XlText):
+        if itype in (func_xltypes.XlNumber, func_xltypes.XlText,
+                     func_xltypes.XlAnything):
             for item in val:
                 if isinstance(item, xlerrors.ExcelError):
                     raise item
